@@ -110,11 +110,24 @@ class GateReplacer(Visitor):
         return self.visit(macro.body)
 
     def visit_BlockStatement(self, block: BlockStatement):
+        statements = []
+        for stmt in block.statements:
+            new_stmt = self.visit(stmt)
+            if (
+                isinstance(new_stmt, BlockStatement)
+                and new_stmt.parallel == block.parallel
+                and not new_stmt.subcircuit
+            ):
+                # Normalize like MacroExpander does: the body of a macro
+                # called from this macro joins the block it is called in.
+                statements.extend(new_stmt.statements)
+            else:
+                statements.append(new_stmt)
         return BlockStatement(
             parallel=block.parallel,
             subcircuit=block.subcircuit,
             iterations=self.visit(block.iterations),
-            statements=[self.visit(stmt) for stmt in block.statements],
+            statements=statements,
         )
 
     def visit_LoopStatement(self, loop: LoopStatement):
